@@ -238,6 +238,34 @@ theorem out_only_read (evs : List Ev) : ∀ (s : Fwd.St) (c : Act), c ∉ reads 
       · cases h : s.saved a <;> simp [step, hg, Fwd.restoreTo, h]
       · simp [step, hg]
 
+
+theorem reads_append (xs ys : List Ev) : reads (xs ++ ys) = reads xs ++ reads ys := by
+  induction xs with
+  | nil => rfl
+  | cons e xs ih => cases e <;> simp [reads, ih]
+
+/-- only started executions are read -/
+theorem reads_sub_started (f : Forest) : ∀ (o : Option Act) (c : Act), c ∈ reads (flatten o f) → c ∈ started (flatten o f) := by
+  induction f with
+  | nil => intro o c h; cases o <;> simp [flatten, reads] at h
+  | write n rest ih =>
+    intro o c h
+    cases o with
+    | none => exact ih none c h
+    | some a => simpa [flatten, started] using ih (some a) c (by simpa [flatten, reads] using h)
+  | kw b rest ih => intro o c h; exact ih o c h
+  | exec b on cap body rest ihb ihr =>
+    intro o c h
+    simp only [flatten, started_exec, List.mem_cons, List.mem_append]
+    simp only [flatten, reads_append, List.mem_append] at h
+    rcases h with ((h | h) | h) | h
+    · cases cap <;> simp [pre, reads] at h
+    · exact Or.inr (Or.inl (ihb _ c h))
+    · cases cap
+      · simp [post, reads] at h
+      · simp [post, reads] at h; exact Or.inl h
+    · exact Or.inr (Or.inr (ihr _ c h))
+
 /-- the `Fwd` machine is the all-capture fragment of this one -/
 theorem step_ofFwd (s : Fwd.St) (e : Fwd.Ev) : step s (ofFwd e) = Fwd.step s e := by
   cases e <;> rfl
